@@ -7,7 +7,8 @@ package cluster
 // History checker against etcd's own MVCC history: generated write histories (unique
 // values) run against a real embedded etcd through the cluster API while consumers read
 // the four Sync* channels (fast, slow, gated so that the 10-slot channel fills); faults
-// are an in-process etcd server stop/start, a watch blackout / cut through a TCP relay
+// are an in-process etcd server stop/start (quick, and outages longer than pull interval +
+// request timeout during which the periodic pulls fail), a watch blackout / cut through a TCP relay
 // (second etcd client used only for the watch path) and a compaction that cancels the
 // lagging watch.  After the case the content of the key range at EVERY revision is read
 // back from etcd (Get WithRev) and every delivered snapshot is matched against it.
@@ -57,7 +58,7 @@ type c19SubSpec struct {
 }
 
 type c19Step struct {
-	Do      string       `json:"do"` // write subscribe waitfirst pause unpause cut stop start compact release settle sleep
+	Do      string       `json:"do"` // write subscribe waitfirst pause unpause cut stop start outage compact release settle sleep
 	Writers [][]c19Op    `json:"writers,omitempty"`
 	Subs    []c19SubSpec `json:"subs,omitempty"`
 	Ms      int          `json:"ms,omitempty"`
@@ -217,6 +218,11 @@ var c19Pattern = []string{
 	"compact-cancel", "compact-cancel", "compact-cancel",
 }
 
+// c19LongPerBlock: after every len(c19Pattern) shuffled cases come this many
+// "outage-long" cases at fixed positions (with 4 shards: one per shard), so that the quick
+// tier always contains them.
+const c19LongPerBlock = 4
+
 func c19GenCase(rng *rand.Rand, kind string) *c19Case {
 	cs := &c19Case{Kind: kind, IntervalMs: []int{100, 200, 300}[rng.Intn(3)]}
 	cs.Ending = c19Endings[rng.Intn(len(c19Endings))]
@@ -279,6 +285,34 @@ func c19GenCase(rng *rand.Rand, kind string) *c19Case {
 		add(c19Step{Do: "write", Writers: [][]c19Op{{{T: []string{"put", "del"}[rng.Intn(2)], K: "a"}, {T: "put", K: "b"}}}})
 		add(c19Step{Do: "stop"}, c19Step{Do: "sleep", Ms: rng.Intn(1500)}, c19Step{Do: "start"})
 		cs.Ending = "none"
+	case "outage-long":
+		// The server stays down for longer than one pull interval plus the request timeout
+		// while the watched key / prefix is NON-EMPTY: at least one periodic pull of every
+		// subscription fails during the outage.  Nothing the syncer delivers meanwhile or
+		// afterwards may be anything but a content of the store.
+		add(prepop)
+		add(c19Step{Do: "subscribe", Subs: c19GenSubs(rng, false, anyMode)})
+		if rng.Intn(2) == 0 {
+			add(c19Step{Do: "subscribe", Subs: c19GenSubs(rng, true, anyMode)[rng.Intn(3):]})
+		}
+		if rng.Intn(3) > 0 {
+			add(c19Step{Do: "write", Writers: writers(1+rng.Intn(2), 5, 12, 0.1)})
+		}
+		// whatever the writers did: the prefix holds at least one key when the server stops
+		ensure := [][]c19Op{
+			{{T: "put", K: "b"}},
+			{{T: "put", K: "a"}, {T: "put", K: "b"}},
+			{{T: "put", K: "a"}, {T: "put", K: "b"}, {T: "put", K: "c"}},
+			{{T: "del", K: "a"}, {T: "put", K: "b"}, {T: "put", K: "P"}},
+		}[rng.Intn(4)]
+		add(c19Step{Do: "write", Writers: [][]c19Op{ensure}})
+		add(c19Step{Do: "release"}, c19Step{Do: "settle"})
+		add(c19Step{Do: "outage", Ms: rng.Intn(800)})
+		if rng.Intn(3) == 0 {
+			// the content stays as it was for a few pull intervals after the recovery
+			add(c19Step{Do: "sleep", Ms: (3 + rng.Intn(3)) * cs.IntervalMs})
+		}
+		add(c19Step{Do: "write", Writers: writers(1+rng.Intn(2), 5, 12, 0.1)})
 	case "subscribe-down":
 		add(prepop)
 		add(c19Step{Do: "stop"})
@@ -585,6 +619,10 @@ type c19Run struct {
 	subs    []*c19Sub
 	subMu   sync.Mutex
 
+	longOutages  int         // outages with a failed reference pull
+	longNonEmpty bool        // ... during which the watched prefix held at least one key
+	outages      []c19Outage // server-down windows of the case (harness clock; classification only)
+
 	valCtr      int64
 	lastGoodRev int64 // last revision read while the server was up (lower bound for a subscription made while it is down)
 	restarted   bool
@@ -594,6 +632,38 @@ type c19Run struct {
 	canaryCancel    context.CancelFunc
 	canaryCompacted int32
 	canaryDone      chan struct{}
+}
+
+// c19Outage is one window in which the harness had the etcd server stopped.
+type c19Outage struct {
+	from, to time.Time // just before CloseServer .. after StartServer reported ready
+	long     bool      // longer than request timeout + pull intervals, a reference pull failed in it
+}
+
+// phaseOf tells where a delivery (by the consumer's receive time) lies relative to the
+// server outages of the case.  Used in signatures only, never for a verdict.
+func (cr *c19Run) phaseOf(at time.Time) string {
+	phase := ""
+	for _, o := range cr.outages {
+		switch {
+		case !at.Before(o.from) && (o.to.IsZero() || !at.After(o.to)):
+			return "while-server-down"
+		case !o.to.IsZero() && at.After(o.to):
+			phase = "after-server-outage"
+		}
+	}
+	return phase
+}
+
+func (cr *c19Run) outageBegin() {
+	cr.outages = append(cr.outages, c19Outage{from: time.Now()})
+}
+
+func (cr *c19Run) outageEnd(long bool) {
+	if n := len(cr.outages); n > 0 {
+		cr.outages[n-1].to = time.Now()
+		cr.outages[n-1].long = long
+	}
 }
 
 func (cr *c19Run) key(sym string) string {
@@ -722,12 +792,14 @@ func (cr *c19Run) doRestart(downMs int) {
 	if rv, err := cr.g.rev(); err == nil {
 		cr.lastGoodRev = rv
 	}
+	cr.outageBegin()
 	cr.g.stopServer()
 	time.Sleep(time.Duration(downMs) * time.Millisecond)
 	if err := cr.g.startServer(); err != nil {
 		cr.abort = "server restart failed: " + err.Error()
 		return
 	}
+	cr.outageEnd(false)
 	cr.restarted = true
 	cr.r.Count("server_restarts_in_case", 1)
 }
@@ -966,14 +1038,18 @@ func (cr *c19Run) step(st *c19Step) {
 		if rv, err := g.rev(); err == nil {
 			cr.lastGoodRev = rv
 		}
+		cr.outageBegin()
 		g.stopServer()
 	case "start":
 		if err := g.startServer(); err != nil {
 			cr.abort = "server start failed: " + err.Error()
 			return
 		}
+		cr.outageEnd(false)
 		cr.restarted = true
 		cr.r.Count("server_restarts_in_case", 1)
+	case "outage":
+		cr.longOutage(st.Ms)
 	case "compact":
 		rv, err := g.waitRev(c19HarnessTimeout)
 		if err != nil {
@@ -998,6 +1074,78 @@ func (cr *c19Run) step(st *c19Step) {
 		cr.settle()
 	case "sleep":
 		time.Sleep(time.Duration(st.Ms) * time.Millisecond)
+	}
+}
+
+// longOutage stops the server and keeps it down for at least request timeout + 3 pull
+// intervals (+ extraMs): every subscription's ticker fires within one interval after the
+// stop, and the pull it starts gives up after the request timeout at the latest.  A
+// reference pull through the same cluster client, started one interval after the stop
+// (not earlier than the latest of those ticker pulls), is observed to FAIL before the
+// server is started again.  Lower bounds on real time only; no verdict depends on them.
+func (cr *c19Run) longOutage(extraMs int) {
+	g := cr.g
+	cur, rv, err := cr.current()
+	if err != nil {
+		cr.abort = "content not readable before the outage: " + err.Error()
+		return
+	}
+	cr.lastGoodRev = rv
+	underPrefix, watchedKey := 0, 0
+	for k := range cur {
+		if strings.HasPrefix(k, cr.P) {
+			underPrefix++
+		}
+		if k == cr.key("a") {
+			watchedKey++
+		}
+	}
+	cr.outageBegin()
+	g.stopServer()
+	down := time.Now()
+	refErr := make(chan error, 1)
+	go func() {
+		time.Sleep(cr.interval)
+		_, err := g.c.GetRawPrefix(cr.root)
+		refErr <- err
+	}()
+	hold := g.c.requestTimeout + 3*cr.interval + time.Duration(extraMs)*time.Millisecond
+	for time.Since(down) < hold {
+		time.Sleep(20 * time.Millisecond)
+	}
+	failed := false
+	select {
+	case err := <-refErr:
+		failed = err != nil
+	case <-time.After(c19HarnessTimeout):
+		cr.abort = "reference pull during the outage did not return"
+	}
+	heldMs := time.Since(down).Milliseconds()
+	if err := g.startServer(); err != nil {
+		cr.abort = "server start after the long outage failed: " + err.Error()
+		return
+	}
+	cr.outageEnd(failed)
+	if cr.abort != "" {
+		return
+	}
+	cr.restarted = true
+	cr.r.Count("server_restarts_in_case", 1)
+	if !failed {
+		// cannot happen with a stopped single-node server; the case still runs, it just
+		// does not count as a long outage
+		cr.r.Count("long_outage_reference_pull_did_not_fail", 1)
+		return
+	}
+	cr.longOutages++
+	cr.r.Count("long_outages_with_failed_reference_pull", 1)
+	cr.r.Max("max:long_outage_ms", heldMs)
+	if underPrefix > 0 {
+		cr.r.Count("long_outages_over_nonempty_prefix", 1)
+		cr.longNonEmpty = true
+	}
+	if watchedKey > 0 {
+		cr.r.Count("long_outages_with_watched_single_key_present", 1)
 	}
 }
 
@@ -1224,16 +1372,36 @@ func (cr *c19Run) safety(s *c19Sub) (viols []c19Viol) {
 				}
 			}
 			x := excerpt(i)
+			// signature = what the snapshot is (never a content / a content that was gone
+			// before the subscription / a content older than an earlier delivery), the
+			// subscription kind, whether it is the empty snapshot, and where the delivery
+			// lies relative to the server outages of the case
+			var class string
 			switch {
 			case ever < 0:
-				viols = append(viols, c19Viol{"phantom-snapshot-never-a-store-content:" + s.Spec.Kind, x})
+				class = "phantom-snapshot-never-a-store-content"
 			case i == 0:
-				x["last_revision_with_that_content"] = ever
-				viols = append(viols, c19Viol{"first-snapshot-older-than-subscription:" + s.Spec.Kind, x})
+				class = "first-snapshot-older-than-subscription"
+			case ever < s.RevSub:
+				// not the first delivery, and the store has not had this content since
+				// the subscription was made (e.g. an empty snapshot of a range that has
+				// been non-empty ever since)
+				class = "snapshot-of-content-gone-before-subscription"
 			default:
-				x["last_revision_with_that_content"] = ever
-				viols = append(viols, c19Viol{"snapshot-order-regression:" + s.Spec.Kind, x})
+				class = "snapshot-order-regression"
 			}
+			if ever >= 0 {
+				x["last_revision_with_that_content"] = ever
+			}
+			sig := class + ":" + s.Spec.Kind
+			if len(d.KV) == 0 {
+				sig += ":empty-snapshot"
+			}
+			if ph := cr.phaseOf(d.At); ph != "" {
+				sig += ":" + ph
+				x["delivery_phase"] = ph
+			}
+			viols = append(viols, c19Viol{sig, x})
 			continue
 		}
 		// distinct contents the syncer skipped between two deliveries (allowed; coverage only)
@@ -1388,6 +1556,27 @@ func (cr *c19Run) run() bool {
 			viols = append(viols, c19Viol{"channel-closed-without-Close:" + s.Spec.Kind, map[string]interface{}{"subscription": s.name(), "deliveries": s.count()}})
 		}
 		viols = append(viols, cr.safety(s)...)
+		if cr.longOutages > 0 {
+			// every delivery of this subscription, before, during and after the outage,
+			// went through the snapshot-is-a-store-content oracle above
+			r.Count("long_outage_subscriptions_checked:"+s.Spec.Kind, 1)
+			if s.Prefix && cr.longNonEmpty {
+				r.Count("long_outage_nonempty_prefix_subscriptions_checked", 1)
+			}
+			during, after := 0, 0
+			s.mu.Lock()
+			for i := range s.deliv {
+				switch cr.phaseOf(s.deliv[i].At) {
+				case "while-server-down":
+					during++
+				case "after-server-outage":
+					after++
+				}
+			}
+			s.mu.Unlock()
+			r.Count("deliveries_received_while_server_down", int64(during))
+			r.Count("deliveries_received_after_long_outage", int64(after))
+		}
 	}
 	for _, v := range viols {
 		v.detail["case_kind"] = cr.cs.Kind
@@ -1437,9 +1626,10 @@ func (cr *c19Run) run() bool {
 func TestVerif_C19_Syncer(t *testing.T) {
 	r := kit.Start(t, "C19")
 	defer r.Finish()
-	r.Rule("seeded histories against a real embedded etcd (cluster.New): 1-3 concurrent writers issue puts of UNIQUE values, deletes, same-value puts, delete-then-recreate, multi-key transactions and prefix deletes through the cluster API on 5 keys under the watched prefix (incl. the key equal to the prefix string and a key extending the single watched key) and 3 keys outside it; consumers of Sync/SyncRaw/SyncPrefix/SyncRawPrefix are fast, slow (20-120 ms per receive) or gated until the 10-slot channel is full; case kinds: empty start, pre-populated+burst+gated, transaction-heavy, subscribe during writes, static store, server stop/start during writes / right after the last write / before subscribing, watch blackout to the end or healed or cut (second etcd client through a TCP relay for the watch path only), compaction that cancels the lagging watch; each case ends with a chosen last change (value only, delete only, create only, delete+recreate, same value, txn swap, prefix delete, outside only, none).  Ground truth = Get(WithRev) of the key range at every revision of the case.  distinct = (case kind, subscription kind/mode/relay, ending, #deliveries bucket, final size bucket)")
+	r.Rule("seeded histories against a real embedded etcd (cluster.New): 1-3 concurrent writers issue puts of UNIQUE values, deletes, same-value puts, delete-then-recreate, multi-key transactions and prefix deletes through the cluster API on 5 keys under the watched prefix (incl. the key equal to the prefix string and a key extending the single watched key) and 3 keys outside it; consumers of Sync/SyncRaw/SyncPrefix/SyncRawPrefix are fast, slow (20-120 ms per receive) or gated until the 10-slot channel is full; case kinds: empty start, pre-populated+burst+gated, transaction-heavy, subscribe during writes, static store, server stop/start during writes / right after the last write / before subscribing (quick restarts: down 0-1.5 s, shorter than the 4 s request timeout, so pulls merely stall), LONG server outage (4 per block of 44 cases, one per quick shard: non-empty watched prefix, all four Sync* kinds subscribed and settled, server down for >= request timeout + 3 pull intervals so that the periodic pulls FAIL - a reference pull through the same cluster client started one interval after the stop is observed to fail before the server is started again - then an idle period or writes after the recovery), watch blackout to the end or healed or cut (second etcd client through a TCP relay for the watch path only), compaction that cancels the lagging watch; each case ends with a chosen last change (value only, delete only, create only, delete+recreate, same value, txn swap, prefix delete, outside only, none).  Ground truth = Get(WithRev) of the key range at every revision of the case.  Every delivery - before, during and after an outage - must be the content at some revision at or after the subscription; a delivery that is not gets the signature <what it is>:<Sync kind>[:empty-snapshot][:while-server-down|:after-server-outage].  distinct = (case kind, subscription kind/mode/relay, ending, #deliveries bucket, final size bucket)")
 	r.Assume("relay subscriptions use the real syncer code with a second etcd client (through the harness relay) for the watch and the cluster's own client for pulls; the relay is black-holed only after the watch was established and never together with a server restart (a watch that must be (re)created while its connection is black-holed blocks the syncer loop, which cannot happen with the single client of production)")
 	r.Assume("bounded convergence replaces 'eventually': a subscription that differs from the final content and received nothing during 50 reference pull cycles (each = one pull interval of sleep + one successful pull through the cluster client, counted by the harness after the last write) is a violation; a firing 150 s watchdog otherwise is inconclusive")
+	r.Assume("a long outage is measured by the harness with lower bounds only: the server is kept stopped for at least request timeout (4 s) + 3 pull intervals after CloseServer returned and until a reference pull (cluster.GetRawPrefix, started one pull interval after the stop) has returned an error; the delivery phase (while-server-down / after-server-outage) in a signature comes from the consumer's receive time and only labels a violation, it never decides one")
 	r.Assume("raw snapshots (SyncRaw/SyncRawPrefix) are additionally matched with create/mod revision, version and lease against the store at some revision; 'consecutive snapshots differ' and convergence are judged on keys and values only, since a same-value put changes only the mod revision")
 
 	g, err := c19NewRig(r)
@@ -1449,16 +1639,21 @@ func TestVerif_C19_Syncer(t *testing.T) {
 	}
 	defer g.close()
 
-	n := r.N(40, 1000)
+	// blocks of len(c19Pattern) shuffled kinds followed by c19LongPerBlock long outages
+	blockLen := len(c19Pattern) + c19LongPerBlock
+	n := r.N(blockLen, 25*blockLen)
 	for i := 0; i < n; i++ {
 		if !r.Mine(i) {
 			continue
 		}
-		block := i / len(c19Pattern)
-		pat := append([]string(nil), c19Pattern...)
-		prng := r.Rand(fmt.Sprintf("plan/%d", block))
-		prng.Shuffle(len(pat), func(a, b int) { pat[a], pat[b] = pat[b], pat[a] })
-		kind := pat[i%len(c19Pattern)]
+		block, pos := i/blockLen, i%blockLen
+		kind := "outage-long"
+		if pos < len(c19Pattern) {
+			pat := append([]string(nil), c19Pattern...)
+			prng := r.Rand(fmt.Sprintf("plan/%d", block))
+			prng.Shuffle(len(pat), func(a, b int) { pat[a], pat[b] = pat[b], pat[a] })
+			kind = pat[pos]
+		}
 		rng := r.CaseRand(i)
 		cs := c19GenCase(rng, kind)
 		r.Case(i, cs)
@@ -1488,4 +1683,13 @@ func TestVerif_C19_Syncer(t *testing.T) {
 	r.Require("cases_with_server_restart", 1)
 	r.Require("converged_during_watch_blackout", 1)
 	r.Require("watch_cancelled_by_compaction_seen", 1)
+	// the long-outage class: server down for longer than pull interval + request timeout
+	// (a reference pull failed meanwhile) over a non-empty prefix, all four Sync* variants
+	r.Require("long_outages_with_failed_reference_pull", 1)
+	r.Require("long_outages_over_nonempty_prefix", 1)
+	r.Require("long_outage_nonempty_prefix_subscriptions_checked", 1)
+	for _, k := range c19Kinds {
+		r.Require("long_outage_subscriptions_checked:"+k, 1)
+	}
+	r.Require("deliveries_received_after_long_outage", 1)
 }
